@@ -161,10 +161,114 @@ def gen_states(rng, n):
     return out
 
 
-def gen_constraints(rng, n):
-    """oneof / or / unknown groups over <= 3 hidden ground fluents (key indices), satisfiable by construction:
-    a seeded witness valuation satisfies every group"""
-    hid = rng.sample(range(n), min(n, rng.choice([1, 2, 3, 3, 3])))
+def _fl(key):
+    return upj.E("fluent", [upj.E("obj", name=o) for o in key[1]], name=key[0])
+
+
+def _lit(key, pos):
+    return _fl(key) if pos else upj.E("not", [_fl(key)])
+
+
+def _ground_action(name, pre, effs):
+    """parameterless action; effs = [(key, value, [condition literals as (key, pos)])]"""
+    out = []
+    for key, val, cond in effs:
+        cl = [_lit(k, p) for k, p in cond]
+        c = upj.TRUE_E if not cl else cl[0] if len(cl) == 1 else upj.E("and", cl)
+        out.append({"kind": "assign", "f": {"name": key[0], "args": [upj.E("obj", name=o) for o in key[1]]},
+                    "v": upj.E("const", v=upj.BV(val)), "c": c, "forall": []})
+    return {"name": name, "kind": "inst", "params": [], "pre": [_lit(k, p) for k, p in pre], "effects": out,
+            "conds": [], "dur": upj.NONE, "sim": False}
+
+
+def gen_chain_problem(rng, g):
+    """`chain` stratum: the goal hangs at the end of a DEPENDENCY CHAIN of 2-3 conditional effects over distinct
+    ground fluents (edge i: `when lit(k_i) [and side literal]: k_{i+1} := v_i`), with seeded polarities at every
+    junction: the condition of edge i+1 is either the literal edge i writes (the chain is a transitive chain of effect
+    rules) or its complement (the chain exists only through the complement rule of the compiler's relevance relation,
+    alone or interleaved with transitive steps).  Whether a possible initial state is dominated then hinges on
+    literals that are relevant to the goal only through several steps of that relation.  Vocabulary (types, objects,
+    fluents, declared initial values) from the G2 grammar; besides the chain: 0-2 unconditional setter actions, now
+    and then a precondition, two edges in one action, a final action whose precondition (a merge target that is not a
+    goal) is the chain's end.  Returns (problem, indices of the chain's ground fluents, index of the goal fluent,
+    polarity of the goal literal)."""
+    for _ in range(20000):
+        V = g.problem()
+        if 3 <= len(upj.keys_of(V)) <= MAX_KEYS:
+            break
+    else:
+        raise MachineryError("generator yields no vocabulary for the C30 chain stratum")
+    keys = upj.keys_of(V)
+    n = len(keys)
+    L = min(n - 1, rng.choice([2, 2, 2, 3]))
+    ch = rng.sample(range(n), L + 1)
+    edges = []
+    for i in range(L):
+        cond = [(keys[ch[i]], rng.random() < 0.5)]
+        if rng.random() < 0.2:
+            side = [j for j in range(n) if j not in (ch[i], ch[i + 1])]
+            if side:
+                cond.append((keys[rng.choice(side)], rng.random() < 0.5))
+                rng.shuffle(cond)
+        edges.append((keys[ch[i + 1]], rng.random() < 0.5, cond))
+    groups = [[e] for e in edges]
+    if rng.random() < 0.25:
+        i = rng.randrange(L - 1)
+        groups[i:i + 2] = [groups[i] + groups[i + 1]]
+    gk, gpos = ch[L], edges[-1][1]
+    acts = []
+    for i, grp in enumerate(groups):
+        pre = []
+        if rng.random() < 0.2:
+            pre = [(keys[rng.randrange(n)], rng.random() < 0.5)]
+        acts.append(_ground_action("e%d" % i, pre, grp))
+    free = [j for j in range(n) if j not in ch]
+    if free and rng.random() < 0.25:
+        # the end of the chain is a precondition; the goal is written by that action
+        j = rng.choice(free)
+        v = rng.random() < 0.5
+        acts.append(_ground_action("fin", [(keys[gk], gpos)], [(keys[j], v, [])]))
+        gk, gpos = j, v
+    for i in range(rng.choice([0, 1, 1, 2])):
+        cands = [j for j in range(n) if j != gk]
+        acts.append(_ground_action("s%d" % i, [], [(keys[rng.choice(cands)], rng.random() < 0.5, [])]))
+    rng.shuffle(acts)
+    goals = [_lit(keys[gk], gpos)]
+    if rng.random() < 0.15:
+        j = rng.choice([j for j in range(n) if j != gk])
+        goals.append(_lit(keys[j], rng.random() < 0.5))
+    P = dict(V, actions=acts, goals=goals)
+    if not one_effect_per_ground_fluent(P):
+        raise MachineryError("chain stratum: two effects on one ground fluent in one action")
+    return P, ch, gk, gpos
+
+
+def gen_chain_states(rng, n, ch, gk, gpos):
+    """2-4 states around a base state in which the goal literal is false; every other state flips ONE fluent of
+    the chain (half of the time its source), now and then a second fluent: whether a state is dominated is then
+    decided by a single literal"""
+    base = [rng.random() < 0.5 for _ in range(n)]
+    base[gk] = not gpos
+    out = [base]
+    inner = [j for j in ch if j != gk] or list(ch)
+    for _ in range(rng.choice([1, 1, 2, 2, 3])):
+        s = list(base)
+        j = ch[0] if rng.random() < 0.5 else rng.choice(inner)
+        s[j] = not s[j]
+        if rng.random() < 0.25:
+            j = rng.randrange(n)
+            s[j] = not s[j]
+        if s not in out:
+            out.append(s)
+    rng.shuffle(out)
+    return out
+
+
+def gen_constraints(rng, n, among=None):
+    """oneof / or / unknown groups over <= 3 hidden ground fluents (key indices; taken from `among` if given),
+    satisfiable by construction: a seeded witness valuation satisfies every group"""
+    pool = list(range(n)) if among is None else list(among)
+    hid = rng.sample(pool, min(len(pool), rng.choice([1, 2, 3, 3, 3])))
     w = {i: rng.random() < 0.5 for i in hid}
     cons = []
     rest = list(hid)
@@ -445,7 +549,7 @@ def judge(ctx, rows):
 
 
 # ----------------------------------------------------------------------------------------
-def make_jobs(ctx, n_explicit, n_contingent, n_dom_trials):
+def make_jobs(ctx, n_explicit, n_contingent, n_dom_trials, n_chain=0, n_chain_contingent=0):
     g = Gen(ctx.rng, **MASK)
     jobs = []
     nid = [0]
@@ -485,6 +589,27 @@ def make_jobs(ctx, n_explicit, n_contingent, n_dom_trials):
         if k % 4 < 2:
             P = retarget_goal(ctx.rng, P)
         add(fam="contingent", P=P, cons=gen_constraints(ctx.rng, len(upj.keys_of(P))))
+    # `chain` stratum (generated after the other strata, which therefore stay what they were for a given seed)
+    for k in range(n_chain):
+        P, ch, gk, gpos = gen_chain_problem(ctx.rng, g)
+        n = len(upj.keys_of(P))
+        S = gen_chain_states(ctx.rng, n, ch, gk, gpos)
+        b = add(fam="explicit", P=P, inits=S, strat="chain")
+        # the same states in the opposite order (of states the reduction ranks equal, the first is kept)
+        if len(S) > 1:
+            add(fam="explicit", P=P, inits=S[::-1], base=b["id"], variant="rev", strat="chain")
+        if k % 2 == 0:
+            x = list(ctx.rng.choice(S))
+            for i in ctx.rng.sample(range(n), ctx.rng.choice([1, 1, 2])):
+                x[i] = not x[i]
+            if x not in S:
+                E = list(S)
+                E.insert(ctx.rng.randint(0, len(E)), x)
+                add(fam="explicit", P=P, inits=E, base=b["id"], variant="ext", strat="chain")
+    for k in range(n_chain_contingent):
+        P, ch, gk, gpos = gen_chain_problem(ctx.rng, g)
+        add(fam="contingent", P=P, cons=gen_constraints(ctx.rng, len(upj.keys_of(P)), among=[j for j in ch if j != gk] or ch),
+            strat="chain")
     return jobs
 
 
